@@ -9,6 +9,7 @@ import (
 	sentinel "github.com/alibaba/sentinel-golang/api"
 	"github.com/alibaba/sentinel-golang/core/base"
 	"github.com/alibaba/sentinel-golang/core/flow"
+	"github.com/alibaba/sentinel-golang/core/stat"
 	"github.com/alibaba/sentinel-golang/core/system"
 	"github.com/alibaba/sentinel-golang/core/system_metric"
 	"pgregory.net/rapid"
@@ -78,6 +79,16 @@ func TestSystemPredicate(t *testing.T) {
 			rules = append(rules, drawRule(i))
 		}
 		load("load")
+		if rapid.IntRange(0, 299).Draw(t, "manyResources") == 137 { // (a middle value: rare)
+			// a process that has already seen about base.DefaultMaxResourceAmount resource names (the library only warns beyond
+			// that amount): inbound traffic on further names still counts for the system rules
+			n := int(base.DefaultMaxResourceAmount) + rapid.IntRange(-2, 2).Draw(t, "around")
+			for i := 0; i < n; i++ {
+				stat.GetOrCreateResourceNode(fmt.Sprintf("bulk-%d", i), base.ResTypeCommon)
+			}
+			c.Op("%d other resources already have statistic nodes", n)
+			c.Class("about-10000-resources-before")
+		}
 		if rapid.IntRange(0, 2).Draw(t, "pacingFlowRule") == 0 {
 			// another module on the traffic's resources: pacing rules that queue requests (never reject: the limit is an hour)
 			pt := float64(rapid.SampledFrom([]int{3, 5, 20, 100}).Draw(t, "paceT")) // (never below the largest batch: a pacing rule rejects a batch above its threshold)
